@@ -57,7 +57,7 @@ pub fn check_c02() -> Check {
 // ------------------------------------------------------------------ planning
 
 const IFACES: [&str; 9] = ["detached_bin", "detached_text", "builder_bin", "builder_text", "builder_bin2", "cleartext", "config_sign_text", "hasher_text", "config_sign_bin"];
-const SIGN_KEYS: [&str; 7] = ["ed25519-v4", "ed25519-v6", "edlegacy-v4", "p256-v4", "ed448-v6", "rsa-v4", "ed25519-v4-locked"];
+const SIGN_KEYS: [&str; 11] = ["ed25519-v4", "ed25519-v6", "edlegacy-v4", "p256-v4", "ed448-v6", "rsa-v4", "ed25519-v4-locked", "p384-v6", "p521-v4", "k256-v4", "dsa-v4"];
 
 fn enum_string(n: usize, mut idx: usize) -> Vec<u8> {
     let mut s = Vec::new();
@@ -70,7 +70,8 @@ fn enum_string(n: usize, mut idx: usize) -> Vec<u8> {
 
 fn hash_for(key: &str, p: &mut Planner) -> &'static str {
     match key {
-        "ed448-v6" => *p.pick(&["sha512", "sha3_512"]),
+        "ed448-v6" | "p521-v4" => *p.pick(&["sha512", "sha3_512"]),
+        "p384-v6" => *p.pick(&["sha384", "sha512", "sha3_512"]),
         _ => *p.pick(&workload::HASHES),
     }
 }
@@ -161,6 +162,14 @@ fn gen_data_sound(ctx: &GenCtx) -> Vec<Value> {
             s.extend_from_slice(a);
             }
             let key = if p.chance(2, 3) { *p.pick(&["ed25519-v4", "ed25519-v6"]) } else { *p.pick(&SIGN_KEYS) };
+            if p.chance(1, 12) {
+                // signers of different signature types in one message, content with CR LF line endings
+                let mut t = b"first line\r\n".to_vec();
+                t.extend_from_slice(&s);
+                t.extend_from_slice(b"\r\nlast line");
+                return json!({"mode":"sound","iface": "builder_mixed", "key": *p.pick(&["ed25519-v4", "ed25519-v6", "p256-v4"]), "hash": "sha256", "issuer": "default",
+                    "payload": {"hex": hex::encode(&t)}, "src_sched": {"k":"full"}, "rng_key": p.u64(), "pick": p.u64()});
+            }
             json!({"mode":"sound","iface": *p.pick(&IFACES), "key": key, "hash": hash_for(key, &mut p), "issuer": plan_issuer(&mut p),
                 "payload": {"hex": hex::encode(&s)}, "src_sched": {"k":"full"}, "rng_key": p.u64(), "pick": p.u64()})
         }));
@@ -241,6 +250,35 @@ fn sign_with(plan: &Value, content: &Arc<Vec<u8>>) -> Result<Signed, String> {
             let m = CleartextSignedMessage::sign(&mut rng, text, &*k.secret, &pw).map_err(e)?;
             let armored = m.to_armored_string(ArmorOptions::default()).map_err(e)?;
             Ok(Signed { sigs: m.signatures().to_vec(), message: None, cleartext: Some(armored), text_mode: true, signers: vec![k] })
+        }
+        "builder_mixed" => {
+            // one message, two one-pass signers of different signature types: k signs in text mode, a second
+            // key in binary mode (the builder gives all its signers one type, so the stub splices two
+            // library-made messages over the same content: OPS(text) OPS(binary) literal SIG(binary) SIG(text))
+            let k2 = keys::get(if k.name == "ed25519-v6" { "ed25519-v4" } else { "ed25519-v6" });
+            let mut parts = Vec::new();
+            for (signer, text) in [(k, true), (k2, false)] {
+                let cfg = json!({"source":"reader","file_name":"","data_mode":"binary","partial":512,"compression":"none","sign_text": text,
+                    "signers": [{"key": signer.name, "hash": if signer.name == k.name { jstr(plan, "hash") } else { "sha512" }}], "enc": {"k":"none"}, "armor": false, "rng_key": ju64(plan, "rng_key")});
+                let mut out = Vec::new();
+                let (r, _) = workload::build(&cfg, workload::Source::Reader(src()), &mut rng, &mut out);
+                r.map_err(e)?;
+                let pk = deframe(&out).map_err(|x| x.to_string())?;
+                if pk.len() != 3 || pk[0].tag != 4 || pk[1].tag != 11 || pk[2].tag != 2 {
+                    return Err("unexpected message shape".into());
+                }
+                parts.push((pk[0].body.clone(), out[pk[1].start..pk[1].end].to_vec(), pk[2].body.clone()));
+            }
+            let mut ops_text = parts[0].0.clone();
+            if let Some(l) = ops_text.last_mut() {
+                *l = 0; // another one-pass signature packet follows
+            }
+            let mut msg = frame(4, &ops_text, &LenForm::NewMinimal).ok_or("frame")?;
+            msg.extend_from_slice(&frame(4, &parts[1].0, &LenForm::NewMinimal).ok_or("frame")?);
+            msg.extend_from_slice(&parts[1].1);
+            msg.extend_from_slice(&frame(2, &parts[1].2, &LenForm::NewMinimal).ok_or("frame")?);
+            msg.extend_from_slice(&frame(2, &parts[0].2, &LenForm::NewMinimal).ok_or("frame")?);
+            Ok(Signed { sigs: vec![], message: Some(msg), cleartext: None, text_mode: false, signers: vec![k, k2] })
         }
         _ => {
             let text = iface == "builder_text";
@@ -553,6 +591,9 @@ fn run_data(plan: &Value, rec: &mut Rec) {
         }
         muts.push(json!({"m":"key_subst"}));
         muts.push(json!({"m":"key_fields"}));
+        if jstr(plan, "iface") == "builder_mixed" {
+            muts.push(json!({"m":"content_lf"}));
+        }
         if signed.message.is_some() {
             muts.push(json!({"m":"ops_fields"}));
             for what in ["literal", "whole-message", "last-signature", "one-pass-and-literal"] {
@@ -623,8 +664,8 @@ fn run_data_mutation(plan: &Value, rec: &mut Rec, signed: &Signed, content: &Arc
                 if c2 == **content {
                     return;
                 }
-                if signed.text_mode && signed.cleartext.is_none() && canon(&c2) == canon(content) {
-                    return; // documented equivalence
+                if (signed.text_mode || iface == "builder_mixed") && signed.cleartext.is_none() && canon(&c2) == canon(content) {
+                    return; // documented equivalence (for the mixed message: of its text-mode signer)
                 }
                 evals += 1;
                 for s in &signed.sigs {
@@ -763,6 +804,28 @@ fn run_data_mutation(plan: &Value, rec: &mut Rec, signed: &Signed, content: &Arc
                         }
                     }
                 }
+            }
+            "content_lf" => {
+                // CR LF -> LF: the text-mode signature is invariant under it, the binary-mode one is not
+                let Some(msg) = &signed.message else { return };
+                let c2: Vec<u8> = String::from_utf8_lossy(content).replace("\r\n", "\n").into_bytes();
+                if c2 == **content || signed.signers.len() < 2 {
+                    return;
+                }
+                let Ok(pk) = deframe(msg) else { return };
+                let Some(li) = pk.iter().position(|p| p.tag == 11) else { return };
+                let hdr_len = 2 + pk[li].body.get(1).copied().unwrap_or(0) as usize + 4;
+                let mut body = pk[li].body[..hdr_len.min(pk[li].body.len())].to_vec();
+                body.extend_from_slice(&c2);
+                let rebuilt = rebuild(&pk, li, &body);
+                evals += 1;
+                let binary_signer = signed.signers[1];
+                accepted.extend(
+                    verify_message_pub(&rebuilt, &c2, &[(binary_signer.name, &binary_signer.public)], &Sched::Full, false)
+                        .into_iter()
+                        .filter(|x| x.1)
+                        .map(|x| format!("{} (the binary-mode signature of {}, after converting the line endings of the content)", x.0, binary_signer.name)),
+                );
             }
             "key_fields" => {
                 // (c) the verifying key: single-bit flips in the key material of the primary public key packet.
@@ -910,8 +973,10 @@ fn gen_cert_complete(ctx: &GenCtx) -> Vec<Value> {
     (0..n)
         .map(|j| {
             let mut p = Planner::new(ctx.seed, "c06.cert", j as u64);
-            json!({"mode":"complete","kind": *p.pick(&CERT_KINDS), "key": *p.pick(&SIGN_KEYS), "other": *p.pick(&["ed25519-v4","ed25519-v6","p256-v4","outsider-v4"]),
-                   "uid": format!("User {} <u{}@example.org>", p.below(1000), p.below(10)), "rng_key": p.u64()})
+            let kind = if p.chance(1, 8) { "attr_cert" } else { *p.pick(&CERT_KINDS) };
+            json!({"mode":"complete","kind": kind, "key": *p.pick(&SIGN_KEYS), "other": *p.pick(&["ed25519-v4","ed25519-v6","p256-v4","outsider-v4"]),
+                   "uid": format!("User {} <u{}@example.org>", p.below(1000), p.below(10)), "rng_key": p.u64(),
+                   "attr_form": *p.pick(&["min", "two", "five", "five"]), "attr_len": *p.pick(&[1usize, 20, 170, 175, 176, 177, 300, 5000])})
         })
         .collect()
 }
@@ -1025,6 +1090,89 @@ fn make_cert_sig(plan: &Value, k: &'static PoolKey, other: &'static PoolKey) -> 
     Ok(CertSig { sig, kind, uid })
 }
 
+/// A user attribute parsed from the wire, with the length of its (single) subpacket written in the
+/// form `form`: "min" as rpgp writes it, "two" (two-octet form for lengths 192..), "five" (0xFF + 4 octets).
+fn attribute_from_wire(form: &str, image_len: usize) -> Option<pgp::packet::UserAttribute> {
+    use pgp::packet::{Packet, PacketParser};
+    let img: Vec<u8> = (0..image_len as u32).map(|i| (i * 11 + 3) as u8).collect();
+    let ua = pgp::packet::UserAttribute::new_image(img.into()).ok()?;
+    let body = ua.to_bytes().ok()?;
+    // body = <subpacket length><type octet><data>; decode the minimal length rpgp wrote
+    let (len, used) = match *body.first()? {
+        b @ 0..=191 => (b as usize, 1),
+        b @ 192..=254 => (((b as usize - 192) << 8) + *body.get(1)? as usize + 192, 2),
+        _ => (u32::from_be_bytes(body.get(1..5)?.try_into().ok()?) as usize, 5),
+    };
+    let rest = body.get(used..)?;
+    if rest.len() != len {
+        return None;
+    }
+    let mut b2 = match form {
+        "five" => {
+            let mut v = vec![0xFFu8];
+            v.extend_from_slice(&(len as u32).to_be_bytes());
+            v
+        }
+        "two" if len >= 192 => vec![((len - 192) >> 8) as u8 + 192, ((len - 192) & 0xFF) as u8],
+        _ => body[..used].to_vec(),
+    };
+    b2.extend_from_slice(rest);
+    let stream = frame(17, &b2, &LenForm::NewMinimal)?;
+    match PacketParser::new(&stream[..]).next()? {
+        Ok(Packet::UserAttribute(ua)) => Some(ua),
+        _ => None,
+    }
+}
+
+/// completeness of user attribute certifications (self and third party), the attribute coming from the wire
+fn run_attr_cert(plan: &Value, rec: &mut Rec, k: &'static PoolKey, other: &'static PoolKey) {
+    let form = jstr(plan, "attr_form");
+    let image_len = jusize(plan, "attr_len");
+    let Some(ua) = attribute_from_wire(form, image_len) else {
+        rec.count("skip:attribute-from-wire");
+        return;
+    };
+    let mut h = Fnv::default();
+    h.str("attr_cert");
+    h.str(k.name);
+    h.str(other.name);
+    h.str(form);
+    h.u64(image_len as u64);
+    rec.eval(h.0, true);
+    rec.count(&format!("kind:attr_cert:{form}"));
+    rec.sample(json!({"kind": "attr_cert", "key": k.name, "other": other.name, "length_form": form, "image_len": image_len}));
+    let r = guard(|| -> Result<(bool, bool, bool), String> {
+        let mut rng = SimRng::new(ju64(plan, "rng_key"), "attrcert", false);
+        let own = ua.sign(&mut rng, &*k.secret, &k.public.primary_key, &Password::from(k.password)).map_err(|e| e.to_string())?;
+        let third = ua
+            .sign_third_party(&mut rng, &*other.secret, &Password::from(other.password), &k.public.primary_key, SignatureType::CertGeneric)
+            .map_err(|e| e.to_string())?;
+        let own_ok = own.verify_bindings(&k.public.primary_key).is_ok();
+        let third_ok = third.verify_third_party(&k.public.primary_key, &other.public.primary_key).is_ok();
+        // and as part of a certificate that went over the wire
+        let mut cert = k.public.clone();
+        cert.details.user_attributes.push(own);
+        let wire = cert.to_bytes().map_err(|e| e.to_string())?;
+        let back = SignedPublicKey::from_bytes(&wire[..]).map_err(|e| e.to_string())?;
+        let cert_ok = back.details.user_attributes.len() == cert.details.user_attributes.len() && back.verify_bindings().is_ok();
+        Ok((own_ok, third_ok, cert_ok))
+    });
+    match r {
+        Err(p) => rec.violation("panic", &norm_loc(&p.loc), format!("certifying a user attribute panicked: {}", p.msg), plan.clone()),
+        Ok(Err(e)) => rec.count(&format!("skip:attr-cert:{}", &e[..e.len().min(40)])),
+        Ok(Ok((own_ok, third_ok, cert_ok))) => {
+            if !own_ok || !third_ok || !cert_ok {
+                rec.violation(
+                    "own-signature-rejected",
+                    "cert:attr_cert",
+                    format!("certification of a user attribute read from the wire (subpacket length in {form} form, {image_len} image octets) by {}: self-certification accepted={own_ok}, third-party certification by {} accepted={third_ok}, certificate carrying it passes verify_bindings after a wire round trip={cert_ok}", k.name, other.name),
+                    plan.clone(),
+                );
+            }
+        }
+    }
+}
+
 fn run_cert(plan: &Value, rec: &mut Rec) {
     let k = keys::get(jstr(plan, "key"));
     let other = keys::get(jstr(plan, "other"));
@@ -1034,6 +1182,12 @@ fn run_cert(plan: &Value, rec: &mut Rec) {
         return;
     }
     let sound = jstr(plan, "mode") == "sound";
+    if kind == "attr_cert" {
+        if !sound {
+            run_attr_cert(plan, rec, k, other);
+        }
+        return;
+    }
     let cs = match guard(|| make_cert_sig(plan, k, other)) {
         Err(p) => {
             rec.eval(0, false);
@@ -1155,7 +1309,29 @@ fn run_cert(plan: &Value, rec: &mut Rec) {
     if kind == "self_cert" && plan.get("only").map(|o| jstr(o, "m") == "cert").unwrap_or(true) {
         // certificates with user attributes stand in for the plain pool key of the same version
         let k = if ju64(plan, "rng_key") % 3 == 0 { keys::get(if k.v6 { "attr-v6" } else { "attr-v4" }) } else { k };
-        if let Ok(bytes) = k.public.to_bytes() {
+        // a certificate whose subkey carries a second, later binding signature (as after extending an expiry)
+        let two_bindings: Option<SignedPublicKey> = if ju64(plan, "rng_key") % 3 == 1 {
+            (|| {
+                let mut rng = SimRng::new(ju64(plan, "rng_key"), "second-binding", false);
+                let mut c = SignatureConfig::from_key(&mut rng, &*k.secret, SignatureType::SubkeyBinding).ok()?;
+                c.hashed_subpackets = vec![
+                    Subpacket::regular(SubpacketData::SignatureCreationTime(Timestamp::now())).ok()?,
+                    Subpacket::regular(SubpacketData::IssuerFingerprint(k.secret.fingerprint())).ok()?,
+                ];
+                let sig = c.sign_subkey_binding(&*k.secret, &k.public.primary_key, &Password::from(k.password), &k.public.public_subkeys[0].key).ok()?;
+                let mut cert = k.public.clone();
+                cert.public_subkeys[0].signatures.push(sig);
+                cert.verify_bindings().ok()?;
+                Some(cert)
+            })()
+        } else {
+            None
+        };
+        if two_bindings.is_some() {
+            rec.count("probe:certificate-with-two-bindings-on-a-subkey");
+        }
+        let public = two_bindings.as_ref().unwrap_or(&k.public);
+        if let Ok(bytes) = public.to_bytes() {
             let Ok(original) = SignedPublicKey::from_bytes(&bytes[..]) else { return };
             let Ok(pk) = deframe(&bytes) else { return };
             // hashed material: key packets' bodies, user id bodies; signature packets via locate
